@@ -141,6 +141,59 @@ theorem encClientHello_sessionId (c : Codes) (m : ClientHello) (h : 256 ≤ m.se
   | none => rfl
   | some e => cases exactly c.randomLen m.random <;> simp [hv]
 
+/-! ## the abstractions of the hello objects forget only `raw` -/
+
+section inj
+open Gotlcp.Src.tlcp.codec
+
+theorem w16_inj {a b : BitVec 16} (h : w16 a = w16 b) : a = b := by
+  rw [Gotlcp.Tie.CodecEncDtlcp.w16_eq, Gotlcp.Tie.CodecEncDtlcp.w16_eq] at h
+  unfold W16.ofNat at h
+  simp only [Prod.mk.injEq] at h
+  have h1 := congrArg UInt8.toNat h.1
+  have h2 := congrArg UInt8.toNat h.2
+  rw [u8_toNat, u8_toNat] at h1 h2
+  have ha := a.isLt; have hb := b.isLt
+  exact BitVec.eq_of_toNat_eq (by omega)
+
+theorem map_inj {α β : Type} (f : α → β) (hf : ∀ x y, f x = f y → x = y) :
+    ∀ (l1 l2 : List α), l1.map f = l2.map f → l1 = l2
+  | [], [], _ => rfl
+  | [], _ :: _, h => by simp at h
+  | _ :: _, [], h => by simp at h
+  | x :: xs, y :: ys, h => by
+    simp only [List.map_cons, List.cons.injEq] at h
+    rw [hf x y h.1, map_inj f hf xs ys h.2]
+
+theorem ofBitVec_inj {a b : BitVec 8} (h : UInt8.ofBitVec a = UInt8.ofBitVec b) : a = b := congrArg UInt8.toBitVec h
+
+/-- the abstraction of a ServerHello object forgets only `raw` -/
+theorem absSH_inj (m1 m2 : serverHelloMsg) (h : absSH m1 = absSH m2) : { m1 with raw := [] } = { m2 with raw := [] } := by
+  cases m1; cases m2
+  simp only [absSH, ServerHello.mk.injEq] at h
+  obtain ⟨h1, h2, h3, h4, h5, h6, h7, h8, h9⟩ := h
+  simp only [serverHelloMsg.mk.injEq, true_and]
+  exact ⟨w16_inj h1, abs_injective h2, abs_injective h3, w16_inj h4, ofBitVec_inj h5, h6, abs_injective h7,
+    abs_injective h8, h9⟩
+
+theorem absTA_inj (t1 t2 : TrustedAuthority) (h : absTA t1 = absTA t2) : t1 = t2 := by
+  cases t1; cases t2
+  simp only [absTA, TA.mk.injEq] at h
+  simp only [TrustedAuthority.mk.injEq]
+  exact ⟨ofBitVec_inj h.1, abs_injective h.2⟩
+
+/-- the abstraction of a tlcp ClientHello object forgets only `raw` -/
+theorem absCH_inj (m1 m2 : clientHelloMsg) (h : absCH m1 = absCH m2) : { m1 with raw := [] } = { m2 with raw := [] } := by
+  cases m1; cases m2
+  simp only [absCH, ClientHello.mk.injEq] at h
+  obtain ⟨h1, h2, h3, _, h4, h5, h6, h7, h8, h9, h10, h11, h12⟩ := h
+  simp only [clientHelloMsg.mk.injEq, true_and]
+  exact ⟨w16_inj h1, abs_injective h2, abs_injective h3, map_inj _ (fun _ _ => w16_inj) _ _ h4, abs_injective h5,
+    abs_injective h6, map_inj _ absTA_inj _ _ h7, h8, map_inj _ (fun _ _ => w16_inj) _ _ h9,
+    map_inj _ (fun _ _ => w16_inj) _ _ h10, map_inj _ (fun _ _ => abs_injective) _ _ h11, abs_injective h12⟩
+
+end inj
+
 /-! ## composing an encoder tie with a decoder tie: the round trip on translated code -/
 
 /-- `Agree` of Tie/UnmarshalTlcpCodec.lean and of Tie/UnmarshalDtlcpCodec.lean are the same predicate -/
